@@ -23,6 +23,25 @@ fn total_ops() -> BoxedStrategy<HOp> {
     .boxed()
 }
 
+fn history_has_scaled_rows(h: &History) -> bool {
+    fn node(n: &crate::gen_tree::TNode) -> bool {
+        match n {
+            crate::gen_tree::TNode::Leaf(_) => false,
+            crate::gen_tree::TNode::Dec { rows, kids } => rows.iter().any(|r| r.scale != 0) || kids.iter().flatten().any(node),
+        }
+    }
+    let tree = |t: &crate::gen_tree::TreeSpec| t.leaf_scale != 0 || node(&t.root);
+    (match &h.ctor {
+        Ctor::Tree(t) => tree(t),
+        Ctor::FromPoly { p, .. } => p.scales.iter().any(|s| *s != 0),
+        _ => false,
+    }) || h.ops.iter().any(|op| match op {
+        HOp::Compose { g: GSpec::Tree(t), .. } => tree(t),
+        HOp::Add { b, .. } | HOp::Sub { b, .. } => tree(b),
+        _ => false,
+    })
+}
+
 pub fn make_total_pub(h: &mut History) {
     make_total(h)
 }
@@ -186,7 +205,13 @@ pub fn run_case(h0: &History, ctx: &mut Ctx) -> CaseResult {
         }
     }
     // (d) terminal count between #full-dimensional and #closed non-empty activation regions
-    if twin_ok && ended_with_elimination && twin.t.num_terminals() <= 256 {
+    // The statement makes this claim "for a distilled network": layers of ordinary magnitude.  With predicate
+    // rows scaled by 2^-25 the library's raw 1e-8 containment tolerance legitimately keeps regions that are
+    // empty by a wide geometric margin (a witness at x = -0.25 "satisfies" -2^-25 x <= 0 within 7.5e-9), so the
+    // count is only judged for histories without scaled rows; the per-node demands (a)-(c) are made regardless.
+    let scaled = history_has_scaled_rows(&h);
+    ctx.class_if(scaled, "scaled_rows_count_bound_not_judged");
+    if twin_ok && ended_with_elimination && !scaled && twin.t.num_terminals() <= 256 {
         let cells = Ref::from_afftree(&twin.t).cells();
         let n = st.in_dim;
         // lower bound: regions containing a ball of radius 1e-6; upper bound: regions that are not
@@ -245,7 +270,7 @@ impl Property for C06 {
         vec!["with dyadic data an exactly empty closed region is empty by a margin >> 1e-8; a survivor that is exactly empty but not by the relaxed margin is counted as thin_survivor, not judged".into(), "the unpruned twin uses compose<false> (decided separately by C02)".into()]
     }
     fn cases(&self, tier: Tier) -> usize {
-        tier.pick(8000, 30_000)
+        tier.pick(20000, 300_000)
     }
     fn strategy(&self, tier: Tier) -> BoxedStrategy<History> {
         let max_ops = tier.pick(6, 10);
